@@ -1,19 +1,19 @@
 """Regenerates MANIFEST.json from the property modules (run by hand after adding clauses)."""
 import importlib, json
 TECH = {
- "C01": "AST rules: writer/reader table agreement (constant evaluation + descriptor table), whitespace-only decorations, nullable dataflow with dominance guards, CFG must-pass-through",
- "C02": "AST rules: identity-comparison lint, typestate/ordering on the CFG (dominance, loop must-pass), table agreement, nullable dataflow",
- "C03": "AST rules over the resolved call graph: option forwarding, key-normalisation taint, stream typestate by path enumeration with predicate atoms, dispatch-table agreement, who-may-call",
- "C04": "nullable dataflow over every serializer, key-normalisation taint, writer/reader table agreement",
+ "C01": "path-effect summaries (symbolic environment per abstract path) compared with decision tables for the item-loop writer, the SM readers and the constructor; writer/reader table agreement by constant evaluation; nullable dataflow; census of writer/reader overrides in the class hierarchy",
+ "C02": "path-effect decision tables for SSCChart.serialize (notes item by key, NOTEDATA first, notes last), SSCSimfile._parse (chart opening/closing) and SSCChart._parse; identity-comparison lint; detection fallback conjunct rule; census of overrides",
+ "C03": "option forwarding and who-may-call over the resolved call graph; key-normalisation taint; stream typestate by path enumeration; path-effect decision tables for suffix dispatch, class choice, constructor funnel and the readers; module-state rule (no table changed at run time)",
+ "C04": "path-effect decision tables of every writer and reader (what is stored must be what is written and nothing else), nullable dataflow over every serializer, key-normalisation taint, census of overrides",
  "C05": "def-use chain of the encoding, handler-shape rule, path enumeration with predicate atoms, write-effect census over the call graph",
  "C06": "handler discipline on the exceptional CFG, dominance of serialization/encode over write-mode opens, write-effect census",
  "C07": "class-table/MRO rule on rich comparisons, polynomial normal form of the beat expression, def-use binding of enumerate indices",
  "C08": "must-pass-through by path enumeration (loops 0/>=1, constant propagation, library facts), polynomial checks of ranges and row keys, delimiter agreement",
- "C09": "enum-dispatch totality, option forwarding and constant tables at resolved call sites, clone comparison, post-dominance",
- "C10": "record-rebuild field completeness, post-dominance of the drain loop, enum-dispatch totality, rich-comparison completeness",
- "C11": "enum/table agreement, bisect search-order = build-order rule, units-of-measure checker, guard-set extraction",
+ "C09": "private closures inlined at load time; path-effect decision table of the head/tail joiner (16 guard atoms, occurrence-aware for mutated objects), of the same-beat modes and of the counters; closed-form shapes of the counting functions; enum-dispatch totality; option forwarding",
+ "C10": "path-effect decision table of ungroup_notes per element (orphan check inlined) and of the joiner; record-rebuild field completeness; drain/release loop order on the CFG; enum-dispatch totality; rich-comparison completeness",
+ "C11": "path-effect decision tables for warp coalescing (with loop-carried-cache equivalence), time_until (units-of-measure on closed forms) and advance; list-builder view of the event pairing; bisect search-order = build-order rule with exact projection and unchanged key; module-state / cache-key completeness rule",
  "C12": "bisect search-order = build-order rule (known finding), units-of-measure checker",
- "C13": "record-rebuild field completeness, enum-dispatch totality with a documented fall-through, guard extraction on hittable",
+ "C13": "path-effect decision table of time_notes per note; record-rebuild field completeness; enum-dispatch totality; guard table of hittable; module-state rule (identity-keyed caches); warp-union table",
  "C14": "operator-override completeness against the running fractions.Fraction, guard atoms of Beat.__new__, constant arithmetic obligation on the format precision, delimiter agreement",
  "C15": "descriptor-table agreement, guard-atom extraction of timing_source, single-source def-use rule, dispatch outcome table of displaybpm",
  "C16": "descriptor-table alias agreement, purity/freshness def-use rule, dominance of the warp check, table agreement",
@@ -54,7 +54,7 @@ manifest = {
         "add_only": True,
     },
     "engines": [{"name": "sfa", "path": "/verif/sfa", "serves_properties": [c["property_id"] for c in checks],
-                 "kind_free_text": "repository-specific static analyser on stdlib ast: resolver + class table/MRO + constant evaluator + statement CFG with dominators + path enumerator + rule families (DESIGN.md section 2)"}],
+                 "kind_free_text": "repository-specific static analyser on stdlib ast: load-time normal form (helper inlining), resolver + class table/MRO + constant evaluator, statement CFG with dominators, path-effect summariser (symbolic environment, lowering of reductions/conditionals), decision-table comparison, rule families (DESIGN.md sections 2 and 12)"}],
     "checks": checks,
     "notes": "Every check is static analysis of /repo's current working tree; exit 0 holds, exit 1 + VIOLATION line, exit 2 ANALYSIS-ERROR (unrecognised shape / vanished anchor, never a VIOLATION). "
              "Known findings are listed in /verif/known_findings.json (C12 bisect order, C16 FREEZES alias, C17 MUSIC and NOTES2 KeyError).",
